@@ -598,6 +598,9 @@ namespace pika::threads::detail {
         void create_thread(threads::detail::thread_init_data& data,
             threads::detail::thread_id_ref_type* id, error_code& ec)
         {
+#if defined(PIKA_VERIF)
+            PIKA_VERIF_POINT(1909, this, 0, 0);
+#endif
             // thread has not been created yet
             if (id) *id = threads::detail::invalid_thread_id;
 
